@@ -407,6 +407,9 @@ var limitShapes = map[string]string{
 	"method": "var o = { m: function(n){ return n <= 1 ? 1 : 1 + this.m(n - 1) } }; o.m(D)",
 	"new":    "function F(n){ this.d = n <= 1 ? 1 : 1 + new F(n - 1).d } new F(D).d",
 	"expr":   "var f = function g(n){ return n <= 1 ? 1 : 1 + g(n - 1) }; f(D)",
+	// the innermost level is a direct eval whose code makes no call: it counts like a call (10.4.2 enters a context)
+	"evalleaf": "function f(n){ return n <= 2 ? eval('1 + 1') : 1 + f(n - 1) } f(D)",
+	"evalnest": "function f(n){ return n <= 3 ? eval('eval(\\'2 + 1\\')') : 1 + f(n - 1) } f(D)",
 	"mutual": "function a(n){ return n <= 1 ? 1 : 1 + b(n - 1) } function b(n){ return n <= 1 ? 1 : 1 + a(n - 1) } a(D)",
 }
 
@@ -533,6 +536,9 @@ func exec(c *run.Ctx, i int) {
 			for d := L - 2; d <= L+2; d++ {
 				if d >= 1 {
 					checkOne(c, Input{Kind: "limit", Limit: L, Depth: d, Shape: shapes[r.Intn(len(shapes))]})
+					if sh := []string{"evalleaf", "evalnest"}[r.Intn(2)]; d >= 3 {
+						checkOne(c, Input{Kind: "limit", Limit: L, Depth: d, Shape: sh})
+					}
 				}
 			}
 		}
